@@ -75,3 +75,9 @@ impl<'a> CodePointInversionList<'a> {
         ensures forall|c: char| self.has(c) <==> #[trigger] r@.contains(c),
     { unimplemented!() }
 }
+
+// R13c: `V.into_iter().map(|x| x.optimize(flags)).collect()` on a Vec<Operation>: element-wise, order kept
+#[verifier::external_body]
+pub fn map_optimize(v: Vec<Operation>, flags: &ReFlags) -> (r: Vec<Operation>)
+    ensures r@.len() == v@.len(), forall|i: int| 0 <= i < v@.len() ==> #[trigger] r@[i] == op_optimized(v@[i], *flags),
+{ unimplemented!() }
